@@ -19,7 +19,7 @@ import (
 // C19: one Rebalance() step on the real upstream server with real yamux
 // sessions and a generated cluster view.
 func TestC19Rebalance(t *testing.T) {
-	vlib.SetRule("C19", "TestC19Rebalance", "threshold in (0,3] (incl. values that put the balance exactly on the threshold), shed rate in [0,1], minimum 0-60, 0-80 local yamux sessions registered on the real upstream server, a cluster view of 0-5 other nodes with drawn status (active / unreachable / left) and connection counts (incl. views whose whole-number average is 0); oracle from the statement with A = floor(sum of conns of active nodes / number of active nodes): sessions closed by one Rebalance() == 0 unless other nodes are known, L > 0, L >= min and (A == 0 or (L-A)/A >= threshold); closed <= min(L, max(1, ceil(A*rate))); L <= A implies 0; balances within 1e-9 of the threshold accept either outcome; non-trivial = L > A with the balance within +-0.5 of the threshold, or A == 0, or a non-active node with connections in the view")
+	vlib.SetRule("C19", "TestC19Rebalance", "threshold in (0,3] (incl. values that put the balance exactly on the threshold), shed rate in [0,1], minimum 0-60, 0-80 local yamux sessions registered on the real upstream server, a cluster view of 0-5 other nodes with drawn status (active / unreachable / left) and connection counts (incl. views whose whole-number average is 0); 1-4 consecutive Rebalance() steps (closed connections are deregistered in between); oracle per step from the statement with A = floor(sum of conns of active nodes / number of active nodes): sessions closed by one Rebalance() == 0 unless other nodes are known, L > 0, L >= min and (A == 0 or (L-A)/A >= threshold); closed <= min(L, max(1, ceil(A*rate))); L <= A implies 0; balances within 1e-9 of the threshold accept either outcome; non-trivial = L > A with the balance within +-0.5 of the threshold, or A == 0, or a non-active node with connections in the view")
 	vlib.Run(t, "C19", func(c *vlib.Case) {
 		L := c.Int("local", 0, 80)
 		if c.Chance("smallLocal", 1, 3) {
@@ -99,40 +99,65 @@ func TestC19Rebalance(t *testing.T) {
 			srv.VerifAddSession(s)
 		}
 		c.Header["L"], c.Header["A"], c.Header["threshold"], c.Header["rate"], c.Header["min"], c.Header["other_nodes"] = L, A, threshold, rate, min, others
-		srv.Rebalance()
-		closed := 0
-		for _, s := range sessions {
-			if s.IsClosed() {
-				closed++
+		// several consecutive steps: after each one the closed connections are taken off
+		// the registry and the routing table (as their handlers would) and the
+		// statement applies afresh to what is left
+		removed := map[int]bool{}
+		otherSum, otherN := activeSum-L, activeN-1
+		for step, steps := 0, c.Int("steps", 1, 4); step < steps; step++ {
+			if step > 0 {
+				A = (otherSum + L) / (otherN + 1)
+				activeSum, activeN = otherSum+L, otherN+1
+				if A > 0 {
+					balance = float64(L-A) / float64(A)
+				} else {
+					balance = math.Inf(1)
+				}
+				c.Class("consecutive-steps")
 			}
-		}
-		c.Stepf("L=%d A=%d (sum %d over %d active) threshold=%v rate=%v min=%d -> closed %d", L, A, activeSum, activeN, threshold, rate, min, closed)
-		if (L > A && A > 0 && math.Abs(balance-threshold) <= 0.5) || (A == 0 && L > 0 && others > 0) || nonActiveWithConns {
-			c.NonTrivial()
-		}
-		if A == 0 {
-			c.Class("whole-number-average-zero")
-		}
-		onEdge := A > 0 && math.Abs(balance-threshold) <= 1e-9
-		mayShed := others > 0 && L > 0 && L >= min && (A == 0 || balance >= threshold || onEdge)
-		if closed > 0 && !mayShed {
-			c.Fatalf("C19: one rebalance step closed %d of %d connections although shedding is not due: other nodes known=%d, minimum=%d, average per active node=%d (%d over %d active), balance=%v, threshold=%v", closed, L, others, min, A, activeSum, activeN, balance, threshold)
-		}
-		if L <= A && closed > 0 {
-			c.Fatalf("C19: a node holding %d connections, at or below the average %d, shed %d", L, A, closed)
-		}
-		cap := int(math.Ceil(float64(A) * rate))
-		if cap < 1 {
-			cap = 1
-		}
-		if cap > L {
-			cap = L
-		}
-		if closed > cap {
-			c.Fatalf("C19: one rebalance step closed %d connections; the cap is max(1, ceil(shed rate %v x average %d)) = %d, never more than the %d open", closed, rate, A, cap, L)
-		}
-		if closed > 0 {
-			c.Class("shed")
+			srv.Rebalance()
+			closed := 0
+			for i, s := range sessions {
+				if s.IsClosed() && !removed[i] {
+					closed++
+				}
+			}
+			c.Stepf("L=%d A=%d (sum %d over %d active) threshold=%v rate=%v min=%d -> closed %d", L, A, activeSum, activeN, threshold, rate, min, closed)
+			if (L > A && A > 0 && math.Abs(balance-threshold) <= 0.5) || (A == 0 && L > 0 && others > 0) || nonActiveWithConns {
+				c.NonTrivial()
+			}
+			if A == 0 {
+				c.Class("whole-number-average-zero")
+			}
+			onEdge := A > 0 && math.Abs(balance-threshold) <= 1e-9
+			mayShed := others > 0 && L > 0 && L >= min && (A == 0 || balance >= threshold || onEdge)
+			if closed > 0 && !mayShed {
+				c.Fatalf("C19: one rebalance step closed %d of %d connections although shedding is not due: other nodes known=%d, minimum=%d, average per active node=%d (%d over %d active), balance=%v, threshold=%v", closed, L, others, min, A, activeSum, activeN, balance, threshold)
+			}
+			if L <= A && closed > 0 {
+				c.Fatalf("C19: a node holding %d connections, at or below the average %d, shed %d", L, A, closed)
+			}
+			cap := int(math.Ceil(float64(A) * rate))
+			if cap < 1 {
+				cap = 1
+			}
+			if cap > L {
+				cap = L
+			}
+			if closed > cap {
+				c.Fatalf("C19: one rebalance step closed %d connections; the cap is max(1, ceil(shed rate %v x average %d)) = %d, never more than the %d open", closed, rate, A, cap, L)
+			}
+			if closed > 0 {
+				c.Class("shed")
+			}
+			for i, s := range sessions {
+				if s.IsClosed() && !removed[i] {
+					removed[i] = true
+					srv.VerifRemoveSession(s)
+					cs.RemoveLocalEndpoint(fmt.Sprintf("e%d", i%3))
+				}
+			}
+			L -= closed
 		}
 	})
 }
